@@ -9,7 +9,7 @@ VERIF = os.path.dirname(HERE)
 args = sys.argv[1:]
 N = int(args[0]) if args and args[0].isdigit() else 96
 props = [a for a in args if not a.isdigit()] or ['C03', 'C09', 'C10', 'C11', 'C13', 'C16', 'C19']
-SPAN = {'C03': 20000, 'C09': 1400, 'C10': 12000, 'C11': 3800, 'C13': 6500, 'C16': 24000, 'C19': 240000}
+SPAN = {'C03': 20000, 'C09': 1400, 'C10': 20000, 'C11': 3800, 'C13': 11000, 'C16': 24000, 'C19': 240000}
 bad = 0
 for p in props:
     idx = sorted(set(int(i * SPAN[p] / N) for i in range(N)))
